@@ -350,6 +350,8 @@ def _pure_helper(ex: Expander) -> Optional[T]:
     """The return term of a helper that only computes a value (one return, no store into anything)."""
     if len(ex.returns) != 1 or ex.stores:
         return None
+    if T.find(ex.returns[0], lambda x: x.op in ("localfn", "lambda")) is not None:
+        return None  # a factory of closures is not a value helper
     return ex.returns[0]
 
 
